@@ -24,6 +24,7 @@ import json
 import re
 from collections import Counter
 from concurrent.futures import ThreadPoolExecutor
+from pathlib import Path
 from typing import Any
 from urllib.parse import parse_qsl, unquote
 
@@ -42,7 +43,7 @@ CLAUSES = (
     + [f"C04.{loc}_{k}" for loc in LOCATED for k in ("missing", "extra", "value", "name")]
 )
 BASE = "http://srv.test"
-PACK = 10
+PACK = 12
 CHUNK = 4000  # operations per Trace_Wire run
 
 
@@ -109,7 +110,6 @@ def family_run(chk: Check, tier: str) -> tuple[list[dict], Counter]:
     for d in r.printed.get("DESIGN", []):
         for f in d["fails"]:
             dev[fkey(f["clause"], f["locus"])] += 1
-    chk.cov["design_modelled_calls"] = r.coverage.get("Judge", (0, 0))[1] or None
     return scen, dev
 
 
@@ -165,10 +165,11 @@ def param_node(p: dict) -> dict:
     return {"name": p["name"], "in": p["in"], "required": bool(p["required"]), "schema": TYPE_SCHEMA[p["type"]]}
 
 
-def document(ops: list[dict]) -> dict:
+def document(ops: list[dict], own_tags: bool = False) -> dict:
+    """own_tags: one tag (= one endpoints module) per operation."""
     paths: dict[str, Any] = {}
     for op in ops:
-        node: dict[str, Any] = {"operationId": "op_" + op["id"], "tags": ["t"], "responses": {"200": {"description": "ok", "content": {"application/json": {"schema": _ref("R")}}}}}
+        node: dict[str, Any] = {"operationId": "op_" + op["id"], "tags": ["t" + op["id"] if own_tags else "t"], "responses": {"200": {"description": "ok", "content": {"application/json": {"schema": _ref("R")}}}}}
         pl = [param_node(p) for p in op["params"] if p["level"] == "path"]
         ol = [param_node(p) for p in op["params"] if p["level"] == "op"]
         if ol:
@@ -187,16 +188,12 @@ def document(ops: list[dict]) -> dict:
 # generation + observation
 
 
-def never_sends_hint(op: dict) -> bool:
-    """Packing hint only (which operations get a package of their own so that they can be identified by elimination)."""
-    return any(p["in"] == "header" and p["required"] and p["type"] in ("int", "bool", "array") for p in op["params"])
-
-
-def generate_and_observe(chk: Check, groups: list[list[dict]], label: str) -> list[dict]:
+def generate_and_observe(chk: Check, groups: list[list[dict]], label: str, compile_only: set[int] = frozenset()) -> list[dict]:
+    """compile_only: indices of groups (operations the model predicts not to compile, one endpoints module each) that are only compiled."""
     root = chk.scratch.sub("gen_" + label)
-    jobs = [{"id": f"{label}{j}", "root": str(root), "spec": document(g), "pkg": f"p{label}{j}", "core": None, "force": True, "nopp": True} for j, g in enumerate(groups)]
+    jobs = [{"id": f"{label}{j}", "root": str(root), "spec": document(g, own_tags=j in compile_only), "pkg": f"p{label}{j}", "core": None, "force": True, "nopp": True} for j, g in enumerate(groups)]
     gres = core.parallel_py(chk.scratch, "harness.w_gen", jobs)
-    ojobs = [{"id": j["id"], "root": j["root"], "pkg": j["pkg"], "core": None, "want": ["import", "surface", "wire"], "max_plans": 8} for j, g in zip(jobs, gres) if g["ok"]]
+    ojobs = [{"id": j["id"], "root": j["root"], "pkg": j["pkg"], "core": None, "want": ["compile"] if n in compile_only else ["surface", "wire"], "max_plans": 8} for n, (j, g) in enumerate(zip(jobs, gres)) if g["ok"]]
     ores = {r["id"]: r for r in core.parallel_py(chk.scratch, "harness.w_obs", ojobs, env={"VERIF_OBS_EXTRA": "harness.obs_wire"})} if ojobs else {}
     return [{"ops": g, "job": j, "gen": gr, "obs": ores.get(j["id"])} for g, j, gr in zip(groups, jobs, gres)]
 
@@ -215,17 +212,49 @@ def eff_params(op: dict) -> list[int]:
     return out
 
 
+ANN_TOKEN = {"str": "str", "int": "int", "bool": "bool", "enum": "Color", "date": "date", "datetime": "datetime", "array": "[Ll]ist"}
+
+
+def ann_fits(ann: str, typ: str) -> bool:
+    return not ann or ann == "Any" or re.search(r"\b" + ANN_TOKEN[typ] + r"\b", ann) is not None
+
+
 BODY_ARG_NAMES = ("body", "files", "form_data", "bytes_content", "data")
 
 
-def bind_signature(op: dict, sig: list[list]) -> list[dict]:
-    """Observed python signature -> signature entries bound to declared parameters: folded names first, then generator
-    conventions for body carriers, then position."""
+def seen_locations(py: str, calls: list[dict]) -> set[str]:
+    """Value flow: the locations in which the token of argument `py` shows up in any captured request."""
+    out: set[str] = set()
+    for c in calls:
+        v = c["args"].get(py, "__none__")
+        if v == "__none__" or isinstance(v, (bool, dict)):
+            continue
+        toks = {x if isinstance(x, str) else str(x) for x in (v if isinstance(v, list) else [v])}
+        for rq in c["requests"]:
+            if any(x in toks for _, x in rq["query"]):
+                out.add("query")
+            if any(x in toks for _, x in rq["headers"]):
+                out.add("header")
+            if any(x in toks for _, x in rq["cookies"]):
+                out.add("cookie")
+            if any(x in toks for x in unquote(rq["path"]).split("/")):
+                out.add("path")
+    return out
+
+
+def bind_signature(op: dict, sig: list[list], calls: list[dict] = ()) -> list[dict]:
+    """Observed python signature -> signature entries bound to declared parameters: folded names first (several
+    candidates: the one in whose location the argument's token is seen on the wire, else a non-cookie one, else the
+    first), then generator conventions for body carriers, then position."""
     eff = eff_params(op)
     free = list(eff)
     out: list[dict | None] = [None] * len(sig)
     for j, (name, _kind, has_default, default, ann) in enumerate(sig):
-        cands = [i for i in free if fold(op["params"][i - 1]["name"]) == fold(name)]
+        # same folded name AND an annotation that can hold the declared type (`body: M | None` is not the cookie parameter `body`)
+        cands = [i for i in free if fold(op["params"][i - 1]["name"]) == fold(name) and ann_fits(ann, op["params"][i - 1]["type"])]
+        if len(cands) > 1:
+            seen = seen_locations(name, list(calls))
+            cands.sort(key=lambda i: (op["params"][i - 1]["in"] not in seen, op["params"][i - 1]["in"] == "cookie", i))
         if cands:
             free.remove(cands[0])
             out[j] = {"py": name, "role": "param", "target": cands[0], "ctype": "", "opt": bool(has_default)}
@@ -351,7 +380,7 @@ def exc_class(exc: dict) -> str:
 
 def request_summary(call: dict) -> dict:
     reqs = call.get("requests") or []
-    out = {"n": len(reqs), "method": "", "path": [], "query": [], "headers": [], "cookies": [], "ctype": "", "body": "", "exc": "", "msgclass": ""}
+    out = {"n": len(reqs), "method": "", "path": [], "query": [], "headers": [], "cookies": [], "ctype": "", "body": "", "exc": "", "msgclass": "", "blame": []}
     oc = call.get("outcome") or {}
     if oc.get("kind") == "raise":
         out["exc"] = oc["exc"]["type"]
@@ -369,7 +398,7 @@ def request_summary(call: dict) -> dict:
 
 def build_trace(op: dict, sig_obs: list[list], calls: list[dict]) -> tuple[dict, list[dict]]:
     """One trace per operation: bound signature + the well-typed calls."""
-    sig = bind_signature(op, sig_obs)
+    sig = bind_signature(op, sig_obs, calls)
     idx = {e["py"]: j for j, e in enumerate(sig)}
     multi = op["body"]["kind"] == "two"
     recs = []
@@ -575,21 +604,45 @@ def judge(chk: Check, items: list[tuple[dict, list[dict]]], label: str, negative
 def observe_ops(chk: Check, scen: list[dict]) -> tuple[list[tuple[dict, list[dict]]], dict[str, Any]]:
     """Generate + observe every operation; returns (trace, call records) per importable, identified operation."""
     stats: dict[str, Any] = {"operations": len(scen), "unimportable": Counter(), "generation_failed": 0, "unidentified": 0, "packages": 0, "second_round": 0}
-    singles = [s for s in scen if s.get("dead") or never_sends_hint(s["op"])]
-    packed = [s for s in scen if not (s.get("dead") or never_sends_hint(s["op"]))]
-    groups = [[s["op"] for s in packed[i : i + PACK]] for i in range(0, len(packed), PACK)] + [[s["op"]] for s in singles]
+    # packing (hints from the model, nothing depends on them being right): operations predicted not to compile go together, one
+    # endpoints module each, and are only compiled; operations predicted never to send are spread one per package so that they
+    # can be identified by elimination; a wrong hint sends the operation to the second round (a package of its own)
+    deads = [s["op"] for s in scen if s.get("dead")]
+    mute = [s["op"] for s in scen if not s.get("dead") and s.get("raises")]
+    normal = [s["op"] for s in scen if not s.get("dead") and not s.get("raises")]
+    npk = max(-(-(len(mute) + len(normal)) // PACK), len(mute), 1)
+    live: list[list[dict]] = [[] for _ in range(npk)]
+    for n, op in enumerate(mute):
+        live[n].append(op)
+    for n, op in enumerate(normal):
+        live[n % npk].append(op)
+    live = [g for g in live if g]
+    groups = live + [deads[i : i + PACK] for i in range(0, len(deads), PACK)]
+    compile_only = set(range(len(live), len(groups)))
     model_sig = {s["op"]["id"]: s for s in scen}
     items: list[tuple[dict, list[dict]]] = []
     pending: list[dict] = []
     for rnd in (1, 2):
         if not groups:
             break
-        res = generate_and_observe(chk, groups, f"r{rnd}x")
+        res = generate_and_observe(chk, groups, f"r{rnd}x", compile_only if rnd == 1 else frozenset())
         stats["packages"] += len(groups)
         groups = []
         for rec in res:
             ops = {op["id"]: op for op in rec["ops"]}
             o = rec["obs"]
+            if rec["gen"]["ok"] and o and "compile" in o and "wire" not in o:
+                # which endpoints module holds which operation: the one whose source contains the operation's path literal
+                errs = {e["file"]: e for e in o["compile"].get("errors", [])}
+                edir = Path(rec["job"]["root"]).joinpath(*rec["job"]["pkg"].split("."), "endpoints")
+                texts = {str(f.relative_to(rec["job"]["root"])): f.read_text() for f in edir.glob("*.py") if f.name != "__init__.py"} if edir.exists() else {}
+                for opid, op in ops.items():
+                    files = [f for f, t in texts.items() if f'/{opid}"' in t or f"/{opid}/" in t]
+                    if len(files) == 1 and files[0] in errs:
+                        stats["unimportable"][import_msgclass("SyntaxError", errs[files[0]]["msg"])] += 1
+                    else:
+                        pending.append(op)
+                continue
             if not rec["gen"]["ok"]:
                 if len(ops) == 1:
                     stats["generation_failed"] += 1
@@ -601,10 +654,11 @@ def observe_ops(chk: Check, scen: list[dict]) -> tuple[list[tuple[dict, list[dic
             surf = o.get("surface") if o else None
             if not isinstance(wire, list) or not isinstance(surf, dict) or "clients" not in surf:
                 if len(ops) == 1:
-                    bad = [m for m in (o or {}).get("import", []) if not m["ok"]]
-                    cls = import_msgclass(bad[0]["exc"]["type"], bad[0]["exc"]["msg"]) if bad else "observer_error"
-                    if not bad:
-                        raise core.MachineryError(f"wire observer failed on an importable package: {json.dumps((o or {}).get('wire'))[:600]}")
+                    # the observer could not even import <pkg>.client: which exception (C01 judges it, here it is counted)
+                    err = ((o or {}).get("surface") or {}).get("observer_error") or ((o or {}).get("wire") or {}).get("observer_error") if isinstance((o or {}).get("wire"), dict) or isinstance((o or {}).get("surface"), dict) else None
+                    if not err or err.get("type") not in ("SyntaxError", "ImportError", "ModuleNotFoundError", "NameError", "TypeError", "AttributeError"):
+                        raise core.MachineryError(f"wire observer failed on a package: {json.dumps(o)[:800]}")
+                    cls = import_msgclass(err["type"], err["msg"])
                     stats["unimportable"][cls] += 1
                     if not model_sig[next(iter(ops))].get("dead"):
                         chk.note_drift(f"operation {next(iter(ops))} does not import ({cls}) but Wire.tla predicts a valid signature")
@@ -626,8 +680,8 @@ def observe_ops(chk: Check, scen: list[dict]) -> tuple[list[tuple[dict, list[dic
                     ident[key] = hit[0]
             left_m = [k for k in by_method if k not in ident]
             left_o = [i for i in ops if i not in ident.values()]
-            if len(left_m) == 1 and len(left_o) == 1 and len(ops) == 1:
-                ident[left_m[0]] = left_o[0]  # a package with one operation and one method: identified by elimination
+            if len(left_m) == 1 and len(left_o) == 1 and len(by_method) == len(ops):
+                ident[left_m[0]] = left_o[0]  # as many methods as operations and all others identified: by elimination
                 left_m, left_o = [], []
             for key, opid in ident.items():
                 op = ops[opid]
